@@ -58,18 +58,28 @@ fn base_text(b: &Base) -> Option<String> {
   }
 }
 
-/// concatenation with the nesting cap: once 4 brackets are open further openers are dropped
+/// nesting as the parser experiences it: an opener pushes, a closer pops only if it matches the innermost opener (a stray `]` inside
+/// `{{{{` closes nothing, so what follows is still four levels deep)
+fn closer_of(c: char) -> Option<char> { match c { '(' => Some(')'), '[' => Some(']'), '{' => Some('}'), '<' => Some('>'), '⟨' => Some('⟩'), _ => None } }
+pub fn true_nesting(text: &str) -> usize {
+  let mut stack: Vec<char> = vec![]; let mut max = 0;
+  for ch in text.chars() {
+    if let Some(cl) = closer_of(ch) { stack.push(cl); max = max.max(stack.len()); }
+    else if matches!(ch, ')' | ']' | '}' | '>' | '⟩') { if stack.last() == Some(&ch) { stack.pop(); } }
+  }
+  max
+}
+
+/// concatenation with the nesting cap: once 4 brackets are open (in the sense of `true_nesting`) further openers are dropped
 fn join_capped(ix: &[u16], table: &dyn Fn(u16) -> &'static str) -> String {
   let mut out = String::new();
-  let mut depth: i32 = 0;
+  let mut stack: Vec<char> = vec![];
   for i in ix {
     let t = table(*i);
     for ch in t.chars() {
-      match ch {
-        '(' | '[' | '{' | '⟨' => { if depth >= 4 { continue; } depth += 1; out.push(ch); }
-        ')' | ']' | '}' | '⟩' => { if depth > 0 { depth -= 1; } out.push(ch); }
-        _ => out.push(ch),
-      }
+      if let Some(cl) = closer_of(ch) { if stack.len() >= 4 { continue; } stack.push(cl); out.push(ch); }
+      else if matches!(ch, ')' | ']' | '}' | '>' | '⟩') { if stack.last() == Some(&ch) { stack.pop(); } out.push(ch); }
+      else { out.push(ch); }
     }
   }
   out
@@ -217,7 +227,7 @@ impl Prop for C09 {
   type Case = Case;
   const ID: &'static str = "C09";
   fn budget(t: Tier) -> u32 { t.pick(30_000, 600_000) }
-  fn timeout_ms(_t: Tier) -> u64 { 20_000 }
+  fn timeout_ms(_t: Tier) -> u64 { 45_000 }
   fn timeout_is_violation() -> bool { false }
   fn strategy(_t: Tier, _k: &Known) -> BoxedStrategy<Case> {
     let base = || prop_oneof![4 => any::<u32>().prop_map(Base::Snippet), 2 => any::<u32>().prop_map(Base::File), 2 => proptest::collection::vec((0..c08::NCONSTRUCTS, any::<u32>()), 1..=4).prop_map(Base::Gen),
@@ -245,20 +255,19 @@ impl Prop for C09 {
      Non-trivial = the text is rejected or parsed with error placeholders; distinct key = (sequence of the first six error messages, number of errors), i.e. which recovery paths ran in which order."
   }
   fn assumptions() -> Vec<String> { vec![
-    "termination is decided only up to the 20 s per-case budget; an overrun is a violation only for texts of at most 300 characters with bracket nesting <= 4 (which parse in < 0.4 s), otherwise it is counted as a timeout (exit 2 above 1 %)".into(),
+    "termination is decided only up to the 45 s per-case budget; an overrun is a violation only for texts of at most 300 characters whose bracket nesting — counted as the parser experiences it: a closer pops only the matching innermost opener — is at most 3; otherwise it is counted as a timeout (exit 2 above 1 %). (A 296-character text with four unclosed braces followed by further openers took 14.6 s on an idle core: exponential, not non-terminating)".into(),
     "bracket nesting in generated strings is capped at 4 because parse time grows exponentially with nesting depth (observation recorded in DESIGN.md)".into(),
     "`accounts for the entire input` is taken as parse()'s own contract (Ok only if nothing remains); it is not re-derived from the tree, which drops punctuation tokens".into(),
   ] }
   fn describe(c: &Case) -> String { format!("{:?}", case_text(c).unwrap_or_default().chars().take(400).collect::<String>()) }
   fn crash_sig(_c: &Case, what: &str) -> String { format!("C09|crash|{}", what) }
-  /// a text of at most 300 characters with bracket nesting <= 4 parses in well under half a second (measured: the slowest of 6000 generated
-  /// cases of that size took < 0.4 s on a loaded machine), so 20 s without an answer is non-termination, not slowness
+  /// a text of at most 300 characters whose true bracket nesting is at most 3 parses in well under a second, so 45 s without an answer is
+  /// non-termination, not slowness. (Nesting must be counted as the parser experiences it: `{{{{…]]…f(x<` is six levels deep although a
+  /// naive counter that lets any closer close any opener sees four — that text took 14.6 s and was once reported as a hang: false alarm, corrected)
   fn hang_sig(c: &Case) -> Option<String> {
     let text = case_text(c)?;
     if text.chars().count() > 300 { return None; }
-    let (mut depth, mut max) = (0i32, 0i32);
-    for ch in text.chars() { match ch { '(' | '[' | '{' | '<' | '⟨' => { depth += 1; max = max.max(depth); } ')' | ']' | '}' | '>' | '⟩' => { if depth > 0 { depth -= 1; } } _ => {} } }
-    if max > 4 { return None; }
+    if true_nesting(&text) > 3 { return None; }
     Some("C09|hang|small-input".to_string())
   }
   fn check(c: &Case, _cx: &Cx) -> Verdict {
